@@ -29,6 +29,13 @@ def gen(r, n):
     # while draining leaked handles: the signal changes neither the verdict nor the wait
     scs.append(dict(u=150, period=20, ta=None, grace=2, leak=2, dur=1.5, hold=6, on_term="exit", sigs=[(2.5, "INT")]))
     scs.append(dict(u=150, period=20, ta=None, grace=2, leak=3, dur=0.5, hold=7, on_term="exit", sigs=[(1.5, "TERM")]))
+    # the test dies of the forwarded signal, a descendant ignoring it keeps the output open for a long time: nextest
+    # exits when the leak timeout has passed -- under split capture and under combined capture (libtest-json)
+    scs.append(dict(u=150, period=20, ta=None, grace=3, leak=2, dur=9, hold=24, on_term="exit", sigs=[(1.5, "TERM")]))
+    scs.append(dict(u=150, period=20, ta=None, grace=3, leak=2, dur=9, hold=24, on_term="exit", sigs=[(1.5, "INT")],
+                    message_format="libtest-json"))
+    scs.append(dict(u=150, period=20, ta=None, grace=3, leak=1, dur=9, hold=24, on_term="exit", sigs=[(2.5, "HUP")],
+                    message_format="libtest-json-plus"))
     # a setup script running when the signal comes
     scs.append(dict(u=150, period=20, ta=None, grace=2, leak=0.7, dur=9, on_term="ignore", sigs=[(1.5, "INT")], as_script=True))
     scs.append(dict(u=150, period=20, ta=None, grace=3, leak=0.7, dur=9, on_term="ignore", sigs=[(1.5, "HUP"), (2.5, "HUP")], as_script=True))
@@ -85,7 +92,7 @@ def run(tier, seed):
         chk.violation("broken-obligation", "e2e-build", dict(error=str(ex)[-3000:]), no_input=True)
         return chk.finish(gate, "make -C coq Properties/C11.vo", [])
     r = vlib.rng_for(seed, PROP)
-    scs = gen(r, 84 if tier == "thorough" else 23)
+    scs = gen(r, 84 if tier == "thorough" else 27)
     life_scs = []
     if U.check_family(chk, rig, scs, U.oracle_C11, "c11"):
         # the whole life of a unit: shutdown signals landing in the retry delay, or consumed by an attempt that
